@@ -395,6 +395,17 @@ def check_loop_order(pm: ProviderModel, rep):
               '; '.join(sorted(set(problems))))
 
 
+def check_wire_order(pm: ProviderModel, rep):
+    """G7: the event history the machine sees is the history on the wire."""
+    from .c03 import drain_order_problems
+    finals = pm.paths('_check_network')
+    problems, n_app = drain_order_problems(finals)
+    if n_app == 0:
+        problems.append('no path appends the received bytes to the buffer')
+    rep.check(not problems, 'C05.G7', 'dulprovider:DULServiceProvider._check_network:wire-order', pm.method('_check_network').loc(),
+              'buffered PDUs become events before the socket is polled (%d append paths)' % n_app, '; '.join(sorted(set(problems))))
+
+
 def run(repo, rep):
     model = FsmModel(repo)
     pm = ProviderModel(repo, model)
@@ -412,6 +423,8 @@ def run(repo, rep):
     rep.rule('C05.G5c', 'P-DATA-TF sent only in Sta6/Sta8, P-DATA indicated only in Sta6/Sta7', 100)
     rep.rule('C05.G5d', 'no indication to the user in any Sta13 cell', 8)
     rep.rule('C05.G5e', 'socket reads are dominated by a socket-presence test', 1)
+    rep.rule('C05.G7', 'events reach the machine in wire order: complete PDUs already buffered are framed before the socket is '
+             'polled again, so neither a transport close (Evt17) nor later data overtakes them', 1)
     rep.rule('C05.G6', 'loop polls network, outgoing queue, timer in that order; one event popped and one action run per iteration', 1)
     check_maps(repo, model, rep)
     check_producers(repo, model, pm, rep)
@@ -419,3 +432,4 @@ def run(repo, rep):
     check_invariants(repo, model, rep)
     check_recv_guard(pm, rep)
     check_loop_order(pm, rep)
+    check_wire_order(pm, rep)
